@@ -608,6 +608,10 @@ class Pass2(CompilePass):
             const.loc_end = node.loc_end
             node.parent.replace_child(node, const)
 
+            # the clone is built from the expression as it was written,
+            # so names of other constants inside it still need replacing
+            self.process_tree(const)
+
             return
 
         func = self.compilation.get_routine(node.base_var, 'function')
